@@ -466,13 +466,14 @@ func (e *Engine) initMiscExternals() {
 		for _, x := range a[0].([]value) {
 			ss = append(ss, x.(string))
 		}
-		return &nativeObj{strings.NewReplacer(ss...)}
+		return &nativeObj{&vReplacer{r: strings.NewReplacer(ss...), pairs: ss}}
 	}
 	t["(*strings.Replacer).Replace"] = func(fr *frame, a []value) value {
+		rp := a[0].(*nativeObj).v.(*vReplacer)
 		if anySym(a[1:]) {
-			fr.i.ex.unsupported("Replacer.Replace on symbolic subject")
+			return fr.i.ex.replacerSym(rp.pairs, termOf(a[1]))
 		}
-		return a[0].(*nativeObj).v.(*strings.Replacer).Replace(a[1].(string))
+		return rp.r.Replace(a[1].(string))
 	}
 	// strings.Builder: field layout {addr *Builder; buf []byte}; model on buf as a string value in field 1
 	t["(*strings.Builder).WriteString"] = func(fr *frame, a []value) value {
@@ -634,3 +635,45 @@ func (i *interpreter) errorsIs(err, target iface, depth int) value {
 }
 
 var _ = sort.Strings
+
+type vReplacer struct {
+	r     *strings.Replacer
+	pairs []string
+}
+
+// replacerSym models strings.Replacer.Replace on a symbolic subject: scan left to
+// right; at each position the first old string (in argument order) that matches
+// is replaced, matches do not overlap.
+func (ex *exec) replacerSym(pairs []string, s *Term) value {
+	for i := 0; i+1 < len(pairs); i += 2 {
+		if pairs[i] == "" {
+			ex.unsupported("Replacer with an empty old string on a symbolic subject")
+		}
+	}
+	bs := ex.symBytes(s, "Replacer.Replace")
+	var out []*Term
+	for i := 0; i < len(bs); {
+		matched := false
+		for p := 0; p+1 < len(pairs); p += 2 {
+			old := pairs[p]
+			if i+len(old) > len(bs) {
+				continue
+			}
+			var eqs []*Term
+			for k := 0; k < len(old); k++ {
+				eqs = append(eqs, tEq(termOf(bs[i+k]), mkInt64(int64(old[k]))))
+			}
+			if ex.decideBool(tAnd(eqs...), "replacer-match") {
+				out = append(out, mkStr(pairs[p+1]))
+				i += len(old)
+				matched = true
+				break
+			}
+		}
+		if !matched {
+			out = append(out, codeStr(termOf(bs[i])))
+			i++
+		}
+	}
+	return valueOfTerm(tConcat(out...), types.String)
+}
